@@ -1263,8 +1263,10 @@ class XsdElement(XsdComponent, ParticleMixin,
         if isinstance(other, XsdElement):
             if self.name == other.name:
                 return True
-            elif other.substitution_group == self.name or other.name == self.substitution_group:
-                return True
+            elif other.substitution_group == self.name:
+                return self.parent is None or self.ref is not None
+            elif other.name == self.substitution_group:
+                return other.parent is None or other.ref is not None
         elif isinstance(other, XsdAnyElement):
             if other.is_matching(self.name, self.default_namespace):
                 return True
